@@ -210,6 +210,7 @@ func (tw *tokenWorld) pickPresentation(ch *kernel.Chooser, target string) presen
 	case x == 12:
 		if ch.Bool(1, 2) {
 			// names the client and announces an assertion that never comes
+			tw.o.Probe("assertion-type-without-an-assertion")
 			return presentation{creds: world.Creds{Mode: "assertion-type-only", ID: target}, label: "assertion-type-without-assertion"}
 		}
 		return presentation{creds: world.Creds{Mode: "none"}, label: "none"}
